@@ -725,10 +725,8 @@ class Engine:
             return [(st, None)]
         if name.startswith("llvm.memcpy") or name.startswith("llvm.memmove"):
             dst, src, n = args[0], args[1], simp(args[2])
-            if is_conc(n):
+            if is_conc(n) and n.as_long() <= 4096:
                 nb = n.as_long()
-                if nb > 4096:
-                    raise Unsupported("memcpy too large")
                 data = [self.load(st, src + BV(i, 64), 1, check=(i == 0 or i == nb - 1), kind="ld-bulk") for i in range(nb)]
                 st.events.append(("bulk", "memcpy", simp(dst), simp(src), n))
                 for i in range(nb):
@@ -744,10 +742,8 @@ class Engine:
             return [(st, None)]
         if name.startswith("llvm.memset"):
             dst, v, n = args[0], args[1], simp(args[2])
-            if is_conc(n):
+            if is_conc(n) and n.as_long() <= 4096:
                 nb = n.as_long()
-                if nb > 65536:
-                    raise Unsupported("memset too large")
                 st.events.append(("bulk", "memset", simp(dst), None, n))
                 for i in range(nb):
                     self.store(st, dst + BV(i, 64), v, check=(i == 0 or i == nb - 1), kind="st-bulk")
